@@ -192,6 +192,49 @@ def front_end_nulls(ctx, R):
     if n4 < 6:
         raise AnalysisBroken("only %d uses of error-signalling nullable producers found" % n4)
 
+    # ---- R6: statement context pairing ----------------------------------------------------------------------------------------------
+    PUSH, POP = "occa::lang::statementContext_t::pushUp", "occa::lang::statementContext_t::popUp"
+    for f in mine:
+        evs = {c["i"]: (1 if callee(c) == PUSH else -1) for c in f.walk() if is_call(c) and callee(c) in (PUSH, POP)}
+        if not evs or f.q in (PUSH, POP):
+            continue
+        cfg = f.cfg
+        seen = set()
+        work = [(cfg.entry, 0, (cfg.entry,))]
+        bad = None
+        exits = set()
+        while work and bad is None:
+            b, d, path = work.pop()
+            if (b, d) in seen:
+                continue
+            seen.add((b, d))
+            blk = cfg.blocks[b]
+            for e in blk.elems:
+                if isinstance(e, int) and e in evs:
+                    d += evs[e]
+            if d < -1 or d > 4:
+                continue
+            if b == cfg.exit or (not [s_ for s_ in blk.succs if s_ is not None] and not blk.noret):
+                exits.add(d)
+                continue
+            # a path that hands a statement back (any return other than `return NULL`): parsing goes on, the context must be as it was found.
+            # Error returns stop the parse (loadAllStatements ends at !success), an unbalanced context there is never consulted again.
+            rets = [f.nodes.get(e) for e in blk.elems if isinstance(e, int) and f.nodes.get(e) is not None and f.nodes[e]["k"] == "ReturnStmt"]
+            if rets and d != 0 and bad is None:
+                r_ = rets[-1]
+                if not (kids(r_) and is_null_const(kids(r_)[0])) and f.d["sig"].split("(")[0].strip() not in ("void",) or (not kids(r_) and len(evs) and d != 0 and False):
+                    bad = (d, list(path))
+            for s_ in blk.succs:
+                if s_ is None or (s_ == cfg.exit and blk.noret):
+                    continue
+                work.append((s_, d, path + (s_,)))
+        npush = sum(1 for v in evs.values() if v == 1)
+        ok = bad is None
+        R.ob("C16-R6", ok, f.q, "context depth 0 wherever a statement is handed back (%d push, %d pop)" % (npush, len(evs) - npush), "%s:%d" % (f.relfile, f.d["line"]),
+             "every path pops what it pushed" if ok else
+             "a path returns with the statement context %s: every enclosing popUp() then restores the wrong parent, which later dangles or makes the up-chain cyclic "
+             "(`if (b) { do { a--; } while (--a); } a--;` crashed the parser)" % ("still pushed (depth %+d)" % bad[0] if bad[0] > 0 else "popped once too often"), path=bad[1] if bad else None)
+
     # ---- R5 -----------------------------------------------------------------------------------------------------------------
     okl = prog.fn("occa::lang::okl::pathHasValidOklLoopOrdering")
     limits = set()
@@ -243,6 +286,7 @@ def run(ctx):
     R.rule("C16-R2", "macro expansion is guarded against re-entry", floor=5)
     R.rule("C16-R3", "a pointer local initialised with NULL is dereferenced only where an assignment or a non-null test reaches (whole front end)", floor=20)
     R.rule("C16-R4", "a NULL result that signals a reported error is tested (folded into the error state) before it is used", floor=8)
+    R.rule("C16-R6", "a parser function that pushes a statement context pops it on every path to a normal exit", floor=8)
     R.rule("C16-R5", "the three-entry dimension arrays are indexed by an OKL loop index that the validator bounds by 3", floor=4)
 
     # ---- R1 --------------------------------------------------------------------------
